@@ -84,6 +84,7 @@ Proof.
   - apply zmono_same. unfold submit, push_main. reflexivity.
   - apply zmono_same. unfold submit. destruct q; reflexivity.
   - apply zmono_same. reflexivity.
+  - apply zmono_same. reflexivity.
 Qed.
 
 Lemma aok_new a nt : nshape a nt ->
@@ -173,6 +174,7 @@ Proof.
     unfold push_main. simpl. apply Forall_app. split; auto. constructor; [|constructor]. apply subok_setq_plain; auto.
   - specialize (IHE K). destruct IHE as [A M KK]. constructor; auto. unfold push_main. simpl.
     apply Forall_app. split; auto. constructor; [|constructor]. unfold subok. simpl. destruct k; simpl in *; auto; contradiction.
+  - specialize (IHE K). destruct IHE as [A M KK]. constructor; auto.
 Qed.
 
 Lemma genm_mok s m : genm m -> mok s m.
